@@ -34,6 +34,10 @@ type prop struct {
 
 var props = map[string]*prop{}
 
+// badCase is the panic value of the harness's own case-line parsers (a malformed case line): only a panic of
+// this type is reported as BAD-CASE - a panic raised by the library, whatever its text, is an observation
+type badCase string
+
 var out = bufio.NewWriterSize(os.Stdout, 1<<20)
 
 // safeEval runs eval with recover() and a watchdog.  A panic is the observation "PANIC", a
@@ -44,7 +48,7 @@ func safeEval(p *prop, op string, args []string) string {
 	go func() {
 		defer func() {
 			if r := recover(); r != nil {
-				if s, ok := r.(string); ok && strings.HasPrefix(s, "bad ") {
+				if _, ok := r.(badCase); ok {
 					ch <- res{"BAD-CASE"} // malformed case line (only arises while shrinking)
 					return
 				}
@@ -182,10 +186,21 @@ func main() {
 		// that happens at all it happens in a large share of the cases, and the first few already are
 		// the violation: after 12 such outcomes the rest of this shard's cases are skipped.
 		slowBad := 0
+		skipped := 0
+		defer func() {
+			// the last line of a shard: how many cases it evaluated and how many it skipped after the cut-off -
+			// ./check refuses a shard without this line (a harness that died) and evaluates skipped cases later
+			out.WriteString(fmt.Sprintf("END\t%s\t%d\t%d\n", pid, n, skipped))
+			out.Flush()
+		}()
 		p.gen(g, *tier, func(op string, args ...string) {
 			idx := n
 			n++
-			if idx%sn != si || slowBad >= 12 {
+			if idx%sn != si {
+				return
+			}
+			if slowBad >= 12 && os.Getenv("VH_NOCUTOFF") == "" {
+				skipped++
 				return
 			}
 			id := fmt.Sprintf("%s-%d-%d", pid, *seed, idx)
